@@ -32,6 +32,7 @@ CONSTANTS MaxClock,    \* the abstract clock runs 1..MaxClock
           MaxRd,       \* redirector_ready reports
           NQ,          \* queries
           MaxLatch,    \* changes of the secure channel state
+          MaxPolls,    \* polls of one waiting query (the client loop of `--status --wait`, provision_query::ProvisionQuery)
           FileSteps,   \* TRUE: the three file system calls of write_provision_state are separate steps
           QKinds,      \* subset of {"zero", "past", "exact", "future"}: instants a query may name
           KKOps,       \* subset of {"U", "R", "T"}: what the key keeper may do
@@ -68,7 +69,7 @@ view  == <<flags, fin, clock, latch, wpc, wloc, kkLeft, rdLeft, latchLeft, qs, t
            reported, everAllReady, timeupFired, allReadyAt, timeupAt, owed, written>>
 
 QIdle == [pc |-> "idle", q |-> 0, tick |-> 0, fl |-> {}, rep |-> {}, names |-> {}, lat |-> FALSE,
-          finished |-> FALSE, owed0 |-> 0, ev |-> 0, tu |-> 0, inR0 |-> FALSE]
+          finished |-> FALSE, owed0 |-> 0, ev |-> 0, tu |-> 0, inR0 |-> FALSE, polls |-> 0]
 LocIdle == [op |-> "-", farg |-> FALSE, msg |-> {}]
 
 Init == /\ flags = {} /\ fin = 0 /\ clock = 1 /\ latch = FALSE
@@ -236,8 +237,21 @@ QFin(i) ==      \* get_provision_finished
   /\ qs[i].pc = "idle" /\ wpc["ls"] = "serving"
   /\ \E kind \in QKinds : \E q \in QTick(kind) :
        /\ qs' = [qs EXCEPT ![i] = [QIdle EXCEPT !.pc = "qstate", !.q = q, !.tick = fin, !.owed0 = owed,
-                                                  !.ev = allReadyAt, !.inR0 = KKInReset]]
+                                                  !.ev = allReadyAt, !.inR0 = KKInReset, !.polls = 1]]
        /\ last' = [t |-> "q", i |-> i, a |-> "qfin", x |-> kind]
+  /\ UNCH_FILES /\ UNCH_ENV
+  /\ UNCHANGED <<flags, fin, wpc, wloc, kkLeft, rdLeft, reported, everAllReady, timeupFired, allReadyAt,
+                 timeupAt, owed>>
+\* The waiting client (ProvisionQuery::get_provision_status_wait): created with the instant q, it polls -- every poll
+\* names q again (the notify header goes with the first poll only; the key keeper may answer it with a reset at any
+\* time, which is already one of its operations) -- sleeps 100 ms after a "not finished" and gives up at its deadline.
+\* What the client returns is the answer of its last poll, so the record of the poll *is* the client's result: the
+\* statement's properties on done records cover the value a waiting query returns.
+WPoll(i) ==     \* next poll: get_provision_finished again, same instant
+  /\ qs[i].pc = "done" /\ ~qs[i].finished /\ qs[i].polls < MaxPolls /\ wpc["ls"] = "serving"
+  /\ qs' = [qs EXCEPT ![i] = [QIdle EXCEPT !.pc = "qstate", !.q = qs[i].q, !.tick = fin, !.owed0 = owed,
+                                             !.ev = allReadyAt, !.inR0 = KKInReset, !.polls = qs[i].polls + 1]]
+  /\ last' = [t |-> "q", i |-> i, a |-> "wpoll", x |-> "-"]
   /\ UNCH_FILES /\ UNCH_ENV
   /\ UNCHANGED <<flags, fin, wpc, wloc, kkLeft, rdLeft, reported, everAllReady, timeupFired, allReadyAt,
                  timeupAt, owed>>
@@ -261,7 +275,7 @@ QChan(i) ==     \* get_current_secure_channel_state; finished := tick >= q || la
 Next == \/ Tick \/ SetLatch
         \/ \E w \in Writers : \/ Upd(w) \/ Reset(w) \/ TState(w) \/ SetFin(w) \/ WState(w)
                               \/ WOpen(w) \/ WWrite(w) \/ WRename(w)
-        \/ \E i \in 1..NQ : QFin(i) \/ QState(i) \/ QChan(i)
+        \/ \E i \in 1..NQ : QFin(i) \/ WPoll(i) \/ QState(i) \/ QChan(i)
 Spec == Init /\ [][Next]_vars
 
 -----------------------------------------------------------------------------
